@@ -1,3 +1,3 @@
-import B6.Driver.Common
-/-! Driver for C13 — stub (the check for this property is not built yet). -/
-def main : IO Unit := B6.Driver.run { σ := Unit, init := (), step := fun s _ _ => (s, .bad) }
+import B6.Driver.Mutable
+/-! Driver for C13 — the family shared by C12 / C13 / C14 (see `B6/Driver/Mutable.lean`). -/
+def main : IO Unit := B6.Driver.run B6.Driver.Mutable.family
